@@ -971,7 +971,8 @@ Proof.
 Qed.
 
 (* ------------------------------------------------------------------ the executable deepcopy meets the contract
-   whenever it completes (flag true).  Not proved: that the fuel S (length h) always suffices on a well-formed heap. *)
+   whenever it completes (flag true).  That the fuel S (length h) always suffices on a well-formed heap is proved in
+   Proofs/HeapCopyTotal.v (dc_total_fuel, deepcopy_checked_total, deepcopy_exec_contract). *)
 Definition minv (h0 h : heap) (m : memo) : Prop := forall k v, In (k, v) m -> goodr h0 h v.
 
 Lemma memo_get_in : forall m o v, memo_get m o = Some v -> In (o, v) m.
